@@ -33,6 +33,9 @@ func (c c16Case) sig() string {
 	if c.Fault2 != nil {
 		f += "+" + c.Fault2.String()
 	}
+	if c.Contract != "" {
+		f += "/contract-" + c.Contract
+	}
 	return fmt.Sprintf("%s/%s/%s/%s/%s", c.RPC, c.Phase, f, c.Basis, c.Inputs)
 }
 
@@ -43,6 +46,14 @@ func (c c16Case) faultPoint() string {
 	case c.Fault2 != nil:
 		return "double-corruption"
 	case c.Fault.Op == "none" || c.Fault.Op == "dial-fail":
+		return c.Fault.Op
+	case strings.HasPrefix(c.Fault.Op, "inject:"):
+		m := strings.TrimPrefix(c.Fault.Op, "inject:")
+		if i := strings.IndexByte(m, '#'); i >= 0 {
+			m = m[:i]
+		}
+		return "inject-" + m
+	case strings.HasPrefix(c.Fault.Op, "signer:"):
 		return c.Fault.Op
 	case c.Fault.Path != "":
 		return fmt.Sprintf("corrupt-%s%d", c.Fault.Dir, c.Fault.Msg)
@@ -58,6 +69,9 @@ func (c c16Case) faultPoint() string {
 func (c c16Case) cause() string {
 	if c.Fault.Op == "dial-fail" {
 		return "dial-fail"
+	}
+	if c.Contract != "" {
+		return "contract-" + c.Contract
 	}
 	faults := []mutation{c.Fault}
 	if c.Fault2 != nil {
@@ -96,6 +110,8 @@ type c16Lab struct {
 	only *c16Case
 	k    int
 	last string
+	// lastCounts are the interface calls of the last attempt (method -> count)
+	lastCounts map[string]int
 }
 
 type econ struct{ host, renter types.Currency }
@@ -148,6 +164,73 @@ func (x *c16Lab) sweep() (types.Currency, error) {
 	return fee, nil
 }
 
+// poolSpent returns the outputs spent by the transactions in a node's pool.
+func poolSpent(n *rhpmitm.Node) map[types.SiacoinOutputID]bool {
+	out := make(map[types.SiacoinOutputID]bool)
+	for _, txn := range n.CM.V2PoolTransactions() {
+		for _, in := range txn.SiacoinInputs {
+			out[in.Parent.ID] = true
+		}
+	}
+	return out
+}
+
+// contractInState hands out a contract to renew / refresh in the given state.
+func (x *c16Lab) contractInState(state string) (rhp.ContractRevision, error) {
+	l := x.l
+	switch state {
+	case "":
+		return x.pool.take()
+	case "unconfirmed":
+		// formed, the host knows it and can lock it, but the formation is still
+		// in the pool: the host has no state element for it yet
+		res, err := l.Form(l.FormParams(types.Siacoins(100), types.Siacoins(200), 400))
+		if err != nil {
+			return rhp.ContractRevision{}, fmt.Errorf("%w: honest formation failed: %v", rhpmitm.ErrHarness, err)
+		}
+		if l.RenterNode != l.HostNode {
+			if _, err := l.RenterNode.CM.AddV2PoolTransactions(res.FormationSet.Basis, res.FormationSet.Transactions); err != nil {
+				return rhp.ContractRevision{}, fmt.Errorf("%w: renter pool rejects formation set: %v", rhpmitm.ErrHarness, err)
+			}
+		}
+		return res.Contract, l.Barrier()
+	case "unknown":
+		c, err := x.pool.take()
+		if err != nil {
+			return c, err
+		}
+		x.pool.giveBack(c)
+		c.ID[0] ^= 0xff
+		c.ID[31] ^= byte(x.k + 1)
+		return c, nil
+	case "renewed":
+		c, err := x.pool.take()
+		if err != nil {
+			return c, err
+		}
+		ctx, cancel := rhpmitm.Ctx()
+		_, set, err := x.kit.call(ctx, l, c, 0)
+		cancel()
+		if err != nil {
+			return c, fmt.Errorf("%w: honest %s failed: %v", rhpmitm.ErrHarness, x.rpc, err)
+		}
+		if err := l.Barrier(); err != nil {
+			return c, err
+		}
+		if l.RenterNode != l.HostNode {
+			l.RenterNode.CM.AddV2PoolTransactions(set.Basis, set.Transactions)
+		}
+		return c, l.Mine(types.VoidAddress, 1)
+	case "expired":
+		cs, err := l.FormConfirmed(1, types.Siacoins(100), types.Siacoins(200), 20)
+		if err != nil {
+			return rhp.ContractRevision{}, err
+		}
+		return cs[0], l.Mine(types.VoidAddress, 21)
+	}
+	return rhp.ContractRevision{}, fmt.Errorf("%w: unknown contract state %q", rhpmitm.ErrHarness, state)
+}
+
 // attemptResult is what one monitored formation / renewal returned.
 type attemptResult struct {
 	Contract rhp.ContractRevision
@@ -176,7 +259,7 @@ func (x *c16Lab) prepareCall(existing *rhp.ContractRevision) (func(ctx context.C
 				return rhp4.ContractCost(cs, fc, fee)
 			}}
 		return func(ctx context.Context) (any, error) {
-			res, err := rhp.RPCFormContract(ctx, l.T, l.RenterNode.CM, l.Signer, l.RenterNode.CM.TipState(), l.Prices, l.HostKey.PublicKey(), l.HostAddr, params)
+			res, err := rhp.RPCFormContract(ctx, l.T, l.RentPool, l.Signer, l.RenterNode.CM.TipState(), l.Prices, l.HostKey.PublicKey(), l.HostAddr, params)
 			return attemptResult{res.Contract, res.FormationSet}, err
 		}, exp
 	}
@@ -288,13 +371,18 @@ func (x *c16Lab) attempt(cse c16Case, noCleanup bool) (succeeded bool) {
 		return
 	}
 	var existing *rhp.ContractRevision
+	skipEcon := false
 	if x.rpc != "form" {
-		c, err := x.pool.take()
+		c, err := x.contractInState(cse.Contract)
 		if err != nil {
-			x.fail("spare contract", err)
+			x.fail("contract in state '"+cse.Contract+"'", err)
 			return
 		}
 		existing = &c
+		skipEcon = cse.Contract == "unconfirmed" // its formation is still pooled
+		if cse.Contract != "" {
+			r.Count("contract_state:"+cse.Contract, 1)
+		}
 	}
 	e0, err := x.econSnap()
 	if err != nil {
@@ -381,10 +469,12 @@ func (x *c16Lab) attempt(cse c16Case, noCleanup bool) (succeeded bool) {
 			}
 		}
 	}
-	switch cse.Fault.Op {
-	case "none":
+	switch {
+	case strings.HasPrefix(cse.Fault.Op, "inject:"), strings.HasPrefix(cse.Fault.Op, "signer:"):
+		// interface failure / signer behaviour: the wire is left alone (set below)
+	case cse.Fault.Op == "none":
 		l.T.SetHook(faultHook(nil, nil, nil, ap))
-	case "dial-fail":
+	case cse.Fault.Op == "dial-fail":
 		l.T.SetHook(faultHook(nil, nil, nil, ap))
 		l.T.FailNextDials(1)
 	default:
@@ -394,6 +484,20 @@ func (x *c16Lab) attempt(cse c16Case, noCleanup bool) (succeeded bool) {
 		}
 		l.T.SetHook(faultHook(muts, nil, nil, ap))
 	}
+	injMethod, injOcc := "", 0
+	if m, ok := strings.CutPrefix(cse.Fault.Op, "inject:"); ok {
+		injMethod = m
+		if i := strings.IndexByte(m, '#'); i >= 0 {
+			injMethod = m[:i]
+			fmt.Sscanf(m[i+1:], "%d", &injOcc)
+		}
+		l.T.SetHook(faultHook(nil, nil, nil, ap))
+	}
+	if cse.Fault.Op == "signer:fee-zero" {
+		l.Signer.FeeOverride = &types.ZeroCurrency
+		l.T.SetHook(faultHook(nil, nil, nil, ap))
+	}
+	l.Inj.Begin(injMethod, injOcc)
 	deadline := callDeadline
 	if cse.Fault.Op == "silent" {
 		deadline = silentDeadline // the peer never answers: the call ends at its context deadline
@@ -401,6 +505,7 @@ func (x *c16Lab) attempt(cse c16Case, noCleanup bool) (succeeded bool) {
 	out := monitoredCall(deadline, call)
 	l.T.SetHook(nil)
 	l.T.FailNextDials(0)
+	l.Signer.FeeOverride = nil
 	r.Eval()
 	r.Count("attempts:"+x.rpc, 1)
 	if out.Hung {
@@ -412,11 +517,21 @@ func (x *c16Lab) attempt(cse c16Case, noCleanup bool) (succeeded bool) {
 		x.fail("barrier", err)
 		return
 	}
+	counts, _, fired := l.Inj.End()
+	x.lastCounts = counts
+	if injMethod != "" {
+		if fired {
+			r.Count("injected_interface_failures", 1)
+			r.SetAdd("injected_methods", x.rpc+":"+injMethod)
+		} else {
+			r.Count("injection_point_not_reached", 1)
+		}
+	}
 	ap.mu.Lock()
 	hit, changed := ap.Hit, ap.Changed
 	sawR1, feeSeen, unconf := emittedR1, fee, renterInputsUnconfirmed
 	ap.mu.Unlock()
-	if cse.Fault.Op == "none" || cse.Fault.Op == "dial-fail" || changed > 0 {
+	if cse.Fault.Op == "none" || cse.Fault.Op == "dial-fail" || changed > 0 || (injMethod != "" && fired) || strings.HasPrefix(cse.Fault.Op, "signer:") {
 		r.Distinct(cse.sig())
 	} else if hit == 0 {
 		r.Count("fault_site_not_reached", 1)
@@ -444,6 +559,11 @@ func (x *c16Lab) attempt(cse c16Case, noCleanup bool) (succeeded bool) {
 		fmt.Printf("DEBUG %s -> err=%v committed=%v\n", cse.sig(), out.Err, committed != nil)
 	}
 	hostLeak, rentLeak := reservedNotReleased(l.HostWallet), reservedNotReleased(l.RentWallet)
+	residue := false
+	if existing != nil && cse.Contract != "unknown" && l.Contractor.Locked(existing.ID) {
+		viol("contract-lock-left-held", "after the attempt (behind the quiescence barrier) the host still holds the lock of the existing contract", existing.ID)
+		x.dead = true // the lab's contract pool is poisoned
+	}
 	cs := l.HostNode.CM.TipState()
 	sigsValid := func(fc types.V2FileContract) bool {
 		h := cs.ContractSigHash(fc)
@@ -505,17 +625,30 @@ func (x *c16Lab) attempt(cse c16Case, noCleanup bool) (succeeded bool) {
 			x.fail("snapshot", fmt.Errorf("%v %v", err1, err2))
 			return
 		}
-		if !hostPost.Equal(hostPre) || len(hostLeak) > 0 {
+		// outputs that are unspendable because a transaction spending them sits in
+		// the node's pool are not reservations: they are accounted separately
+		hostWant, hostResidue := hostPre.Without(poolSpent(l.HostNode))
+		rentWant, rentResidue := rentPre.Without(poolSpent(l.RenterNode))
+		if hostResidue+rentResidue > 0 {
+			// a fully signed transaction was pooled before the host failed: no
+			// contract is recorded and nothing is reserved, but the pooled
+			// transaction remains (no handler order can avoid one of the two
+			// residues when the step after pooling fails)
+			r.Count("pool_residue_after_uncommitted_failure", 1)
+			residue = true
+		}
+		hostPre, rentPre = hostWant, rentWant
+		if !hostPost.EqualModuloUnconfirmed(hostPre) || len(hostLeak) > 0 {
 			viol("host-inputs-not-released", "after a failed attempt the host wallet's spendable set differs from before / funded inputs were never released", map[string]any{"before": hostPre, "after": hostPost, "reserved_not_released": hostLeak, "calls": l.HostWallet.Calls()})
 		}
-		if !rentPost.Equal(rentPre) || len(rentLeak) > 0 {
+		if !rentPost.EqualModuloUnconfirmed(rentPre) || len(rentLeak) > 0 {
 			viol("renter-inputs-not-released", "after a failed attempt the renter wallet's spendable set differs from before / funded inputs were never released", map[string]any{"before": rentPre, "after": rentPost, "reserved_not_released": rentLeak, "calls": l.RentWallet.Calls(), "error": fmt.Sprint(out.Err)})
 		}
 		if len(hostLeak) > 0 || len(rentLeak) > 0 {
 			r.Count("reservation_leaks_observed", 1)
 		}
 	}
-	if x.rpc != "form" && committed == nil {
+	if x.rpc != "form" && committed == nil && cse.Contract == "" {
 		x.pool.giveBack(*existing)
 	}
 	if noCleanup && committed == nil {
@@ -576,6 +709,8 @@ func (x *c16Lab) attempt(cse c16Case, noCleanup bool) (succeeded bool) {
 				viol("renewal-not-confirmed", "after mining, the existing contract was not resolved by a renewal", *exp.existingID)
 			}
 		}
+	} else if residue {
+		r.Count("residue_transactions_confirmed_by_lab_mining", 1)
 	} else {
 		for id, ds := range diffs {
 			for _, d := range ds {
@@ -590,6 +725,10 @@ func (x *c16Lab) attempt(cse c16Case, noCleanup bool) (succeeded bool) {
 		return
 	}
 	defer x.releaseAll()
+	if skipEcon || (residue && committed == nil) {
+		r.Count("economic_check_not_applicable", 1)
+		return
+	}
 	e1, err := x.econSnap()
 	if err != nil {
 		x.fail("econ", err)
